@@ -575,7 +575,7 @@ func runC10(p *load.Program, r *core.Report) {
 	}
 	// ---- N2
 	rule2 := "C10.N2 parent-link-and-exit-sender"
-	r.Floor(rule2, 2)
+	r.Floor(rule2, 3)
 	{
 		sp := p.Func("node", a.NodeT.Obj().Name(), "spawn")
 		key := "C10.N2|spawn|link"
@@ -635,6 +635,55 @@ func runC10(p *load.Program, r *core.Report) {
 				r.Bad(rule2, key, fname(sp), p.Pos(sp.Pos()), inst, strings.Join(probs, "; "))
 			} else {
 				r.OK(rule2, key, fname(sp), p.Pos(add.Pos()), inst, "AddLink(child.pid, child.parent) under LinkParent, before publication")
+			}
+		}
+		// exit sender on a failed initialisation: children spawned (linked) during ProcessInit get the
+		// exit in the name of the process that failed, through sendExitMessage(from = p.pid, ...)
+		if sp != nil {
+			key3 := "C10.N2|spawn|init-failure-exit-sender"
+			inst3 := "when ProcessInit fails, the children it already spawned get an exit that names the failed process as sender"
+			var initCall *ssa.Call
+			eachInstr(sp, func(in ssa.Instruction) {
+				if c, ok := in.(*ssa.Call); ok && c.Common().IsInvoke() && c.Common().Method.Name() == "ProcessInit" {
+					initCall = c
+				}
+			})
+			if initCall == nil {
+				r.Unk(rule2, key3, fname(sp), p.Pos(sp.Pos()), inst3, "no ProcessInit call in spawn")
+			} else {
+				_, failed := nilEdgesCell(initCall)
+				var starts []Point
+				for _, e := range failed {
+					starts = append(starts, Point{e.To(), 0})
+				}
+				good, bad := 0, []string{}
+				for _, in := range walkAvoid(starts, nil, func(in ssa.Instruction) bool {
+					return callsNamed(in, "sendExitMessage") || callsNamed(in, "SendExit") || callsNamed(in, "RouteSendExit")
+				}) {
+					cc := callCommon(in)
+					if !callsNamed(in, "sendExitMessage") {
+						bad = append(bad, "exit sent through "+calleeName(cc)+" at "+p.Pos(in.Pos())+" (sender is not the failed process)")
+						continue
+					}
+					args := cc.Args
+					if !cc.IsInvoke() && cc.Signature().Recv() != nil {
+						args = args[1:]
+					}
+					_, p0, _ := fieldPath(args[0])
+					if len(p0) > 0 && p0[len(p0)-1] == "pid" {
+						good++
+					} else {
+						bad = append(bad, "sendExitMessage at "+p.Pos(in.Pos())+" with a sender other than the failed process's pid")
+					}
+				}
+				switch {
+				case len(bad) > 0:
+					r.Bad(rule2, key3, fname(sp), p.Pos(initCall.Pos()), inst3, strings.Join(bad, "; ")+": a child that traps exits survives its parent's failed start as an orphan")
+				case good == 0:
+					r.Bad(rule2, key3, fname(sp), p.Pos(initCall.Pos()), inst3, "no exit is sent to the link targets on the failure path")
+				default:
+					r.OK(rule2, key3, fname(sp), p.Pos(initCall.Pos()), inst3, fmt.Sprintf("%d sendExitMessage(from = p.pid) on the failure path", good))
+				}
 			}
 		}
 		// exit sender: in RouteTerminatePID the exit message is sent with from = target
